@@ -14,5 +14,234 @@ def c18(ctx):
     rep.rule("C18.R3", "CENSUS: every panic/UB-capable construct in a body reachable from Linter::run (with the virtual pass calls "
              "fanned out through the vtables built in standard_passes), cli::linter::lint and the Display impls of the lint result is "
              "enumerated in both profiles and discharged by an automatic rule or a reviewed argument")
+    rep.rule("C18.R1", "the pass overrides exactly visit_assignment, visit_poetic_number_assignment and visit_array_push, so every other "
+             "statement is reached through the inherited traversal, which visits every block-typed child (C16.R1 on the base defaults)")
+    rep.rule("C18.R2", "which statements are reported: KIND interprets the three methods with the two constant folders enumerated over "
+             "their outcomes (Ok, each ConstantFoldingError): a compound assignment, a right-hand side that already is a poetic literal and "
+             "a push without a value yield nothing; a numeric fold yields the numeric diagnostic for (target, value, line); WrongType "
+             "yields the string diagnostic iff the string folder succeeds; any other folding error yields nothing")
+    rep.rule("C18.R4", "no misleading suggestion: PoeticNumberLiteralTemplate::from_value is only reached under bool::then of a guard that "
+             "requires a finite, non-negative value; the `says` suggestion is only made for strings without a line break")
     n = cr.census_for(ctx, "C18.R3", "C18", "linting", cr.roots_lint, only=in_linter)
     rep.floor("C18.R3", n, 12, "census sites (both profiles)")
+    overrides_rule(ctx, "C18.R1")
+    inspected_rule(ctx, "C18.R2")
+    spelling_guard_rule(ctx, "C18.R4")
+    # the value named in the report is the folder's: re-run the folder/interpreter agreement rules under this property
+    rep.rule("C18.R5", "the reported value is the one execution computes: the agreement rules of C17 (operator map, operand order, fold "
+             "shape, never for non-constants) re-checked here, because a wrong fold makes the report and its suggestion wrong")
+    from . import c17 as _c17
+
+    class _Renamed:
+        def __init__(self, inner):
+            self._i = inner
+
+        def __getattr__(self, k):
+            return getattr(self._i, k)
+
+        def rule(self, r, text):
+            pass
+
+        def ob(self, rule, key, ok, detail="", where=None, how=None):
+            return self._i.ob("C18.R5", rule.split(".")[1] + "::" + key, ok, detail, where, how)
+
+        def fail(self, rule, key, detail, where=None):
+            return self._i.ob("C18.R5", rule.split(".")[1] + "::" + key, False, detail, where)
+
+        def floor(self, rule, measured, floor, what="instances"):
+            return self._i.floor("C18.R5." + rule.split(".")[1], measured, floor, what)
+    real = ctx.rep
+    ctx.rep = _Renamed(real)
+    try:
+        _c17.c17(ctx)
+    finally:
+        ctx.rep = real
+
+
+# ------------------------------------------------------------------------------------------
+# which statements are inspected (KIND over the three overridden methods)
+
+from .. import kind, kindtables as kt, tables  # noqa: E402
+from ..kind import E, is_e  # noqa: E402
+from ..core import callee_def, op_local  # noqa: E402
+from ..flow import origins  # noqa: E402
+from .common import find_method, is_callee  # noqa: E402
+
+VP = "analysis::visit::VisitProgram"
+PASS = "linter::passes::boring_assignment::BoringAssignmentPass"
+NCF = "analysis::tools::NumericConstantFolder"
+SCF = "analysis::tools::SimpleStringConstantFolder"
+CFE = "analysis::tools::ConstantFoldingError"
+RES = "std::result::Result"
+OPT = "std::option::Option"
+MOD = "linter::passes::boring_assignment::"
+
+
+def lint_models(F):
+    def m_fold(I, fn, st, t, args, depth):
+        recv = args[0]
+        who = "num" if is_e(recv, NCF) else ("str" if is_e(recv, SCF) else "?")
+        yield E(RES, "Ok", ("sym", who)), None, ((("fold", who), "Ok"),)
+        if who == "num":
+            for v in F.adts[CFE]["variants"]:
+                yield E(RES, "Err", E(CFE, v["name"])), None, ((("fold", who), v["name"]),)
+        else:
+            yield E(RES, "Err", ("sym", "strerr")), None, ((("fold", who), "Err"),)
+    models = {}
+    for n in ("visit_assignment_rhs", "visit_expression", "visit_expression_list"):
+        models["analysis::visit::VisitExpr::" + n] = m_fold
+    for n in ("build_numeric_diag", "maybe_build_string_diag", "maybe_build_numeric_array_push_diag", "build_diag"):
+        models[MOD + n] = kind.m_opaque(n)
+    models["frontend::source_range::Line::line"] = kind.m_opaque("line")
+    return models
+
+
+def outcomes(I, fn, args):
+    res = set()
+    for o in I.run(fn, args):
+        dec = tuple(sorted((ct[1], tk) for ct, tk in o.conds if isinstance(ct, tuple) and ct and ct[0] == "fold"))
+        res.add((kt.term(o.ret), dec))
+    return res
+
+
+def inspected_rule(ctx, rule):
+    F, rep = ctx.F, ctx.rep
+    I = kind.Interp(F, models=lint_models(F))
+    others = tuple(v["name"] for v in F.adts[CFE]["variants"] if v["name"] != "WrongType") if CFE in F.adts else ()
+    # ---- visit_assignment
+    va = find_method(F, VP, "visit_assignment", PASS)
+    if va is None:
+        rep.fail(rule, "anchor::visit_assignment", "BoringAssignmentPass::visit_assignment not found")
+    else:
+        rep.analysed(va)
+        A = "frontend::ast::Assignment"
+        got_some = outcomes(I, va, [("sym", "self"), E(A, "Assignment", ("sym", "dest"), ("sym", "value"), E(OPT, "Some", ("sym", "op")))])
+        ok = {r for r, d in got_some} == {"Ok(Empty)"}
+        rep.ob(rule, "compound-assignment-never-reported", ok, "" if ok else "a compound assignment (operator present) can yield %s" % sorted(r for r, d in got_some if r != "Ok(Empty)"),
+               va.loc(), how="operator present -> Empty on every path")
+        got = outcomes(I, va, [("sym", "self"), E(A, "Assignment", ("sym", "dest"), ("sym", "value"), E(OPT, "None"))])
+        want = {("Ok(build_numeric_diag(dest,num,line(Assignment(dest,value,None))))", (("num", "Ok"),))}
+        want |= {("Ok(maybe_build_string_diag(dest,Some(str),line(Assignment(dest,value,None))))", (("num", "WrongType"), ("str", "Ok")))}
+        want |= {("Ok(maybe_build_string_diag(dest,None,line(Assignment(dest,value,None))))", (("num", "WrongType"), ("str", "Err")))}
+        want |= {("Ok(Empty)", (("num", v),)) for v in others}
+        ok = got == want
+        rep.ob(rule, "plain-assignment-table", ok, "" if ok else "visit_assignment (no operator): unexpected %s; missing %s" % (sorted(got - want)[:2], sorted(want - got)[:2]), va.loc(),
+               how="numeric fold -> numeric diag; WrongType -> string diag if a plain string literal; other errors -> nothing")
+    # ---- visit_poetic_number_assignment
+    vp = find_method(F, VP, "visit_poetic_number_assignment", PASS)
+    if vp is None:
+        rep.fail(rule, "anchor::visit_poetic_number_assignment", "BoringAssignmentPass::visit_poetic_number_assignment not found")
+    else:
+        rep.analysed(vp)
+        PA = "frontend::ast::PoeticNumberAssignment"
+        RHS = "frontend::ast::PoeticNumberAssignmentRHS"
+        got = outcomes(I, vp, [("sym", "self"), E(PA, "PoeticNumberAssignment", ("sym", "dest"), E(RHS, "PoeticNumberLiteral", ("sym", "lit")))])
+        ok = {r for r, d in got} == {"Ok(Empty)"}
+        rep.ob(rule, "poetic-literal-never-reported", ok, "" if ok else "an assignment that already is a poetic literal can yield %s" % sorted(r for r, d in got), vp.loc(), how="PoeticNumberLiteral rhs -> Empty")
+        got = outcomes(I, vp, [("sym", "self"), E(PA, "PoeticNumberAssignment", ("sym", "dest"), E(RHS, "Expression", ("sym", "e")))])
+        want = {("Ok(build_numeric_diag(dest,num,line(e)))", (("num", "Ok"),)),
+                ("Ok(maybe_build_string_diag(dest,Some(str),line(e)))", (("num", "WrongType"), ("str", "Ok"))),
+                ("Ok(maybe_build_string_diag(dest,None,line(e)))", (("num", "WrongType"), ("str", "Err")))}
+        want |= {("Ok(Empty)", (("num", v),)) for v in others}
+        ok = got == want
+        rep.ob(rule, "poetic-expression-table", ok, "" if ok else "visit_poetic_number_assignment (expression rhs): unexpected %s; missing %s" % (sorted(got - want)[:2], sorted(want - got)[:2]), vp.loc(),
+               how="same table as plain assignments, line of the expression")
+    # ---- visit_array_push
+    vu = find_method(F, VP, "visit_array_push", PASS)
+    if vu is None:
+        rep.fail(rule, "anchor::visit_array_push", "BoringAssignmentPass::visit_array_push not found")
+    else:
+        rep.analysed(vu)
+        AP = "frontend::ast::ArrayPush"
+        PR = "frontend::ast::ArrayPushRHS"
+        got = outcomes(I, vu, [("sym", "self"), E(AP, "ArrayPush", ("sym", "array"), E(OPT, "None"))])
+        ok = {r for r, d in got} == {"Ok(Empty)"}
+        rep.ob(rule, "push-without-value-never-reported", ok, "" if ok else "`rock x` without a value can yield %s" % sorted(r for r, d in got), vu.loc(), how="no value -> Empty")
+        got = outcomes(I, vu, [("sym", "self"), E(AP, "ArrayPush", ("sym", "array"), E(OPT, "Some", E(PR, "PoeticNumberLiteral", ("sym", "lit"))))])
+        ok = {r for r, d in got} == {"Ok(maybe_build_numeric_array_push_diag(array,None,line(ArrayPush(array,Some(PoeticNumberLiteral(lit))))))"}
+        rep.ob(rule, "push-of-poetic-literal-never-reported", ok, "" if ok else "`rock x like <literal>` yields %s" % sorted(r for r, d in got), vu.loc(), how="poetic literal -> no constant -> no diag")
+        got = outcomes(I, vu, [("sym", "self"), E(AP, "ArrayPush", ("sym", "array"), E(OPT, "Some", E(PR, "ExpressionList", ("sym", "el"))))])
+        rs = {r.split("(", 2)[1] + ":" + ("Some" if ",Some(num)," in r else "None") for r, d in got}
+        by = {d: r for r, d in got}
+        ok = set(by) == {(("num", "Ok"),)} | {(("num", v["name"]),) for v in F.adts[CFE]["variants"]} and ",Some(num)," in by[(("num", "Ok"),)] and all(",None," in r for d, r in by.items() if d != (("num", "Ok"),))
+        rep.ob(rule, "push-table", ok, "" if ok else "visit_array_push (expression list): %s" % sorted(got)[:3], vu.loc(), how="numeric fold -> diag, anything else -> nothing")
+    # maybe_* helpers build a diag exactly for Some
+    for name in ("maybe_build_string_diag", "maybe_build_numeric_array_push_diag"):
+        fn = F.fn(MOD + name)
+        if fn is None:
+            # generic over the Render parameter: find by prefix
+            c = [f for p, f in F.fns.items() if p.startswith(MOD + name) and f.kind != "closure"]
+            fn = c[0] if c else None
+        if fn is None:
+            rep.fail(rule, "anchor::" + name, "%s not found" % name)
+            continue
+        rep.analysed(fn)
+        I2 = kind.Interp(F, models={MOD + "build_diag": kind.m_opaque("build_diag")})
+        none = {kt.term(o.ret) for o in I2.run(fn, [("sym", "var"), E(OPT, "None"), ("sym", "line")])}
+        some = {kt.term(o.ret).split("(")[0] for o in I2.run(fn, [("sym", "var"), E(OPT, "Some", ("sym", "v")), ("sym", "line")])}
+        ok = none == {"Empty"} and some == {"build_diag"}
+        rep.ob(rule, "maybe-helper::" + name, ok, "" if ok else "%s: None -> %s, Some -> %s" % (name, sorted(none), sorted(some)), fn.loc(), how="None -> Empty, Some -> one diag")
+
+
+def overrides_rule(ctx, rule):
+    F, rep = ctx.F, ctx.rep
+    for imp in F.impls:
+        st = F.ty(imp["self_ty"])
+        if imp.get("trait") == VP and st.kind() == "adt" and st.adt() == PASS:
+            got = sorted(m["name"] for m in imp["methods"])
+            want = ["visit_array_push", "visit_assignment", "visit_poetic_number_assignment"]
+            ok = got == want
+            rep.ob(rule, "overrides", ok, "" if ok else "BoringAssignmentPass overrides %s; block-carrying statements must keep the inherited traversal (C16.R1) and only %s are inspected" % (got, want),
+                   imp.get("file"), how=str(want))
+            return
+    rep.fail(rule, "anchor::impl", "impl VisitProgram for BoringAssignmentPass not found")
+
+
+def spelling_guard_rule(ctx, rule):
+    """no misleading suggestion: the template is only built from values that have a poetic spelling"""
+    F, rep = ctx.F, ctx.rep
+    from ..guards import _closure_use
+    fv = [f for p, f in F.fns.items() if p == MOD + "PoeticNumberLiteralTemplate::from_value"]
+    if not fv:
+        rep.fail(rule, "anchor::from_value", "PoeticNumberLiteralTemplate::from_value not found")
+        return
+    n = 0
+    for fn, bi, t in common.who_calls(F, lambda c: c["def"] == fv[0].path):
+        if fn.in_test_file():
+            continue
+        n += 1
+        rep.analysed(fn)
+        ok, why = False, "the call is not inside a closure run by bool::then(has a poetic spelling)"
+        if fn.kind == "closure":
+            use = _closure_use(F, fn)
+            if use and is_callee(use[2], "core::bool::<impl bool>::then"):
+                parent = use[0]
+                srcs = [callee_def(parent.term(d[1])) for d, _ in origins(parent, use[2]["args"][0]) if d[0] == "call"]
+                guard_fn = F.fn(srcs[0]) if srcs else None
+                if guard_fn is not None:
+                    names = {tt["callee"].get("name") for b in F.with_closures(guard_fn) for bb, tt in b.calls() if "indirect" not in tt["callee"]}
+                    if {"is_finite", "is_sign_positive"} <= names:
+                        ok, why = True, ""
+                    else:
+                        why = "the guard %s does not require a finite, non-negative value (%s)" % (guard_fn.path, sorted(x for x in names if x))
+        rep.ob(rule, "numeric-suggestion-guarded::%s" % common.top_fn(F, fn).path, ok, why, fn.loc(t["line"]), how="only for finite, non-negative values")
+    rep.floor(rule, n, 2, "uses of from_value")
+    ss = [f for p, f in F.fns.items() if p.startswith(MOD + "string_suggestion_payload") and f.kind != "closure"]
+    if not ss:
+        rep.fail(rule, "anchor::string_suggestion_payload", "string_suggestion_payload not found")
+    else:
+        fn = ss[0]
+        rep.analysed(fn)
+        cont = [(bi, t) for bi, t in fn.calls() if t["callee"].get("name") == "contains" and "indirect" not in t["callee"]]
+        thens = [(bi, t) for bi, t in fn.calls() if is_callee(t, "core::bool::<impl bool>::then")]
+        ok = len(cont) == 1 and len(thens) == 1 and (cont[0][1]["args"][1].get("const") or {}).get("char") == "\n"
+        if ok:
+            # then(!contains('\n'))
+            neg = False
+            for d, p in origins(fn, thens[0][1]["args"][0]):
+                if d[0] == "op" and fn.stmts(d[1])[d[2]]["rv"].get("un") == "not":
+                    neg = True
+            ok = neg and thens[0][1]["dest"]["l"] == 0
+        rep.ob(rule, "string-suggestion-guarded", ok, "" if ok else "a `says` suggestion can be made for a string containing a line break (a poetic string ends at the end of the line)", fn.loc(), how="(!value.contains('\\n')).then(..)")
+
+
